@@ -41,7 +41,7 @@ def plan(tier):
                     tasks.append((dict(cfg, spy=False, storage=st), 6, 0, False, 2, 'exact'))
     # a model that returns one pre-allocated output dict, overwritten in place at every call
     for cfg in sc.buffer_configs('sage'):
-        tasks.append((dict(cfg, spy=cfg['d'] == 2), 4, 1 if cfg['storage'] == 'Geometric' else 0, False, 2, 'exact'))
+        tasks.append((dict(cfg, spy=cfg['d'] == 2), 3 if cfg['d'] == 3 else 4, 1 if cfg['storage'] == 'Geometric' else 0, False, 2, 'exact'))
     # library defaults and remaining storages / n_inner=3 (not in the quick product)
     for dyn in (False, True):
         for d in (1, 2, 3):
